@@ -32,7 +32,8 @@ def check(run, only=None):
                 "marked safe for the same/another type, filtered, concatenated, literal, number, empty, escape|raw, conditional) x 13 "
                 "placements (top, if, else, for, for-else, block, inherited, included, embedded, embed override, capture, filter "
                 "section, macro); payloads: one with every character significant in HTML/JS/CSS/URL, one with only an apostrophe, one with only quotes, one with none; non-trivial = a payload is printed "
-                "below a construct or in a non-html template")
+                "below a construct or in a non-html template; plus 4 x 16 goroutines x 60 calls on one Twig environment over templates of "
+                "four content types, each call compared with the same call made alone")
     run.assumptions = ["escaped payloads are expanded by TLC with the reference escapers of Escape.tla (css in the pinned 4-hex-digit format, see the C13 known finding)",
                        "results of captures/macros are re-printed with |raw (stick returns plain strings; statement judges the inner print)"]
     if only is not None:
@@ -61,6 +62,31 @@ def check(run, only=None):
         return "C12 %s name=%s form=%s" % (why.split(" at event")[0], v["x"]["name"], v["x"]["form"])
     common.replay_vectors(run, conc, nontrivial=nontrivial, sigfn=sigfn, check_log=False)
     run.traces += len(conc)
+    if only is None:
+        concurrent(run, [{"id": "C12-conc-%d" % i, "k": "conc", "n": 16, "rounds": 60 if run.tier != "thorough" else 400, "env": "twig",
+                          "seed": run.seed * 17 + i, "dl": 120000, "fresh": True} for i in range(4 if run.tier != "thorough" else 8)])
+
+
+def concurrent(run, cases):
+    """templates of different content types (html, js, css, txt) parsed and executed from 16 goroutines on ONE Twig environment:
+    the content type a print is escaped for is its own template's, whatever the other callers are parsing at that moment; each call
+    is compared with the same call made alone (whose escaping the sequential part of this check has established)"""
+    obs, _ = common.run_pool(cases, deadline_ms=120000, workers=4)
+    for c in cases:
+        o = obs[c["id"]]
+        if o["st"] != "ok":
+            run.mismatch("C12 concurrent run %s" % common.crash_sig(o), c, "concurrent run did not complete: " + o["st"],
+                         observed=(o.get("err") or o.get("stderr") or "")[:2000])
+            continue
+        bad = [ev for ev in o["obs"]["events"] if ev["api"] == "execute" and (ev["ok"] != ev["alone_ok"] or ev["out"] != ev["alone_out"])]
+        for ev in o["obs"]["events"]:
+            run.count(json.dumps([c["id"], ev["g"], ev["round"]]), True)
+        if bad:
+            ev = bad[0]
+            run.mismatch("C12 concurrent: escaped for another template's content type [%s]" % ev["tpl"], c,
+                         "%d of %d concurrent calls differ from the same call made alone" % (len(bad), len(o["obs"]["events"])),
+                         expected=common.show(bytes(ev["alone_out"])), observed=common.show(bytes(ev["out"])))
+    run.traces += len(cases)
 
 
 def replay(run, path):
@@ -69,4 +95,7 @@ def replay(run, path):
 
     def sigfn(v, o, why):
         return m["sig"]
+    if case.get("k") == "conc":
+        concurrent(run, [case])
+        return
     common.replay_vectors(run, [case], sigfn=sigfn, check_log=False)
